@@ -12,6 +12,7 @@ Line protocol of the C10 model (one s-expression in, one out):
   (topoly EXPR)            -> ((((atom power) ...) num den) ...)   convert_to_poly (PolyModel.lean)
   (frompoly EXPR)          -> EXPR                       from_poly (convert_to_poly e)
   (bodycmp ONE NEXP NEXP)  -> lt | eq | gt               fast_compare on monomial bodies / atoms
+  (wfs ONE NEXP)           -> T | F                      atoms determined by their rank (hypothesis of norm_full_iff_poly)
   (isnf ONE NEXP)          -> T | F                      the normal-form predicate of norm_idem
 TREE = n | (n L R);  TERM = (a n) | (c F A) | (l x BODY);  PAT = (v n) | (a n) | (c F A)
 CE   = all | no | (rewr L R) | (then A B) | (else A B) | (try A) | (comb A B) | (comb1 A) | (arg A)
@@ -193,6 +194,10 @@ def handle (line : String) : String :=
       | .eq => "eq"
       | .gt => "gt"
     | _, _, _ => "bad-op"
+  | some (.list [.atom "wfs", one, t]) =>
+    match one.toNat?, nexpOf t with
+    | some o, some t => toString (Sexp.ofBool (atomsByRank o t))
+    | _, _ => "bad-op"
   | some (.list [.atom "isnf", one, t]) =>
     match one.toNat?, nexpOf t with
     | some o, some t => toString (Sexp.ofBool (isNF o t))
